@@ -232,7 +232,17 @@ pub fn run() {
             },
             "shmread" => match st.objs.get(h(t[1])) {
                 Some(Obj::Shm(g)) => match st.regions.get(&(g.len(), checksum(&g[..]))) {
-                    Some(seed) if g[..] == payload(*seed, g.len())[..] => format!("QShmRead ({})%Z ({})%Z", g.len(), seed),
+                    Some(seed) if g[..] == payload(*seed, g.len())[..] => {
+                        // regions compare by contents on every transport: equal to an independently created region with the same
+                        // bytes, different from one with other bytes
+                        let same = IpcSharedMemory::from_bytes(&payload(*seed, g.len()));
+                        let other = IpcSharedMemory::from_bytes(&payload(*seed + 1, g.len() + 1));
+                        if *g == same && *g != other {
+                            format!("QShmRead ({})%Z ({})%Z", g.len(), seed)
+                        } else {
+                            format!("QShmEqualityWrong(len={})", g.len())
+                        }
+                    },
                     _ => format!("QShmCorrupt(len={})", g.len()),
                 },
                 _ => "QBad".into(),
